@@ -2,6 +2,7 @@
   Lemmas/SchedC06.lean — helper lemmas for Props/C06.lean (pass-level reasoning on top of Lemmas/SchedPass.lean).
 -/
 import PjVerif.Lemmas.SchedPass
+import PjVerif.Lemmas.SchedC04
 import PjVerif.Spec.Sched2
 namespace Pj
 
@@ -441,19 +442,63 @@ theorem fwdStart_leaf_day (env : Env) (cal : Cal) (used : Int → Rat) (t : Uid)
     refine Int.le_trans (dayOf_mono ?_) g1
     exact Rat.le_trans (le_maxT_left _ _) (le_maxT_left _ _)
 
-theorem fwdEnd_clock (env : Env) (clk clk' : Nat → Time) (cal : Cal) (used : Int → Rat) (t : Uid) (σ : SS)
-    (h : (σ.f t).end_ = none → (env.info t).children.isEmpty = true →
-      ∃ s, (σ.f t).start = some s ∧ (∀ k, clk k ≤ s) ∧ (∀ k, clk' k ≤ s)) :
-    fwdEnd (env.setClock clk) cal used t σ = fwdEnd (env.setClock clk') cal used t σ := by
+theorem shiftFwd_day (cal : Cal) (used : Int → Rat) (a b : Time) (left : Rat) (hl : left ≠ 0)
+    (h : dayOf a = dayOf b) : shiftFwd cal used a left = shiftFwd cal used b left := by
+  unfold shiftFwd
+  rw [if_neg hl, if_neg hl, h]
+
+theorem dayOf_maxT_of_le {a b : Time} (h : dayOf b ≤ dayOf a) : dayOf (maxT a b) = dayOf a := by
+  unfold maxT
+  split
+  · rename_i hlt
+    have := dayOf_mono (Rat.le_of_lt hlt)
+    omega
+  · rfl
+
+/-- the end stage of a leaf whose start is known, when the second clock reading is not later than the project start:
+    the fill from the later of start and clock, and the end is the later of the fill's date and the start -/
+theorem fwdEnd_leaf_eq (env : Env) (cal : Cal) (used : Int → Rat) (t : Uid) (σ : SS) (s : Time)
+    (he : (σ.f t).end_ = none) (hs : (σ.f t).start = some s)
+    (hl : (env.info t).children.isEmpty = true) (hb : env.clock (σ.reads + 1) ≤ env.bound) :
+    fwdEnd env cal used t σ = (shiftFwd cal used (maxT s (env.clock σ.reads)) (leftOf σ t)).map (fun p =>
+      setF { (addRows { σ with reads := σ.reads + 1 } (env.info t).resource t p.2) with reads := σ.reads + 2 } t
+        (fun g => { g with end_ := some (maxT p.1 s) })) := by
+  have hL : ∀ r, leftOf { σ with reads := r } t = leftOf σ t := fun _ => rfl
   unfold fwdEnd
+  simp only [he, hl, if_true, hs, Option.getD_some, bind, Except.bind, now, hL]
+  rcases hsh : shiftFwd cal used (maxT s (env.clock σ.reads)) (leftOf σ t) with err | ⟨e, rows⟩
+  · rfl
+  · simp only [Except.map]
+    show Except.ok (setF { (addRows { σ with reads := σ.reads + 1 } (env.info t).resource t rows) with
+        reads := σ.reads + 2 } t (fun g => { g with end_ := some (maxT
+          (if env.bound < env.clock (σ.reads + 1) then maxT e (env.clock (σ.reads + 1)) else e) s) })) = _
+    rw [if_neg (Rat.not_lt.2 hb)]
+
+/-- the end stage does not look at the clock when no reading is later than the project start, none lies on a later
+    day than the start the task has, and - when there is no work left, so that the fill returns the date it is given -
+    none is later than that start -/
+theorem fwdEnd_clock (env : Env) (clk clk' : Nat → Time) (cal : Cal) (used : Int → Rat) (t : Uid) (σ : SS)
+    (hb1 : ∀ k, clk k ≤ env.bound) (hb2 : ∀ k, clk' k ≤ env.bound)
+    (h : (σ.f t).end_ = none → (env.info t).children.isEmpty = true →
+      ∃ s, (σ.f t).start = some s ∧ (∀ k, dayOf (clk k) ≤ dayOf s) ∧ (∀ k, dayOf (clk' k) ≤ dayOf s) ∧
+        (leftOf σ t = 0 → (∀ k, clk k ≤ s) ∧ (∀ k, clk' k ≤ s))) :
+    fwdEnd (env.setClock clk) cal used t σ = fwdEnd (env.setClock clk') cal used t σ := by
   cases he : (σ.f t).end_ with
-  | some e => rfl
+  | some e => unfold fwdEnd; simp only [he]
   | none =>
     by_cases hl : (env.info t).children.isEmpty = true
-    · obtain ⟨s, hs, h1, h2⟩ := h he hl
-      simp only [now, Env.setClock_info, Env.setClock_clock, hl, if_true, hs, Option.getD_some,
-        maxT_left (h1 _), maxT_left (h2 _), maxT_drop (h1 _), maxT_drop (h2 _)]
-    · simp only [Env.setClock_info, hl]
+    · obtain ⟨s, hs, h1, h2, h0⟩ := h he hl
+      have key : shiftFwd cal used (maxT s (clk σ.reads)) (leftOf σ t) =
+          shiftFwd cal used (maxT s (clk' σ.reads)) (leftOf σ t) := by
+        by_cases hz : leftOf σ t = 0
+        · rw [maxT_left ((h0 hz).1 _), maxT_left ((h0 hz).2 _)]
+        · rw [shiftFwd_day _ _ _ s _ hz (dayOf_maxT_of_le (h1 _)),
+            shiftFwd_day _ _ _ s _ hz (dayOf_maxT_of_le (h2 _))]
+      rw [fwdEnd_leaf_eq (env.setClock clk) cal used t σ s he hs hl (hb1 _),
+        fwdEnd_leaf_eq (env.setClock clk') cal used t σ s he hs hl (hb2 _)]
+      simp only [Env.setClock_clock, Env.setClock_info, key]
+    · unfold fwdEnd
+      simp only [he, Env.setClock_info, hl]
       rfl
 
 theorem fillEst_setClock (env : Env) (clk : Nat → Time) (t : Uid) (σ : SS) :
@@ -462,13 +507,18 @@ theorem fillEst_setClock (env : Env) (clk : Nat → Time) (t : Uid) (σ : SS) :
 theorem usedBy_setClock (env : Env) (clk : Nat → Time) (rows : List Row) (r : Option Nat) (t : Uid) :
     usedBy (env.setClock clk) rows r t = usedBy env rows r t := rfl
 
-/-- one placement does not look at the clock when every reading lies on a day before the day of the lower bound
-    `m` and before the day of a start the task already has (and will keep, its end being open) -/
+/-- one placement does not look at the clock when no reading is later than the project start (which the lower bound
+    `m` is not before), none is later than a start the task already has (and will keep, its end being open), and - for
+    a task without work, whose end is the date handed to the fill - none is later than the midnight of the project
+    start day -/
 theorem fwdPlace_clock (env : Env) (clk clk' : Nat → Time) (σ : SS) (t : Uid) (m : Time)
-    (hlow1 : ∀ k, dayOf (clk k) < dayOf m) (hlow2 : ∀ k, dayOf (clk' k) < dayOf m)
+    (hb1 : ∀ k, clk k ≤ env.bound) (hb2 : ∀ k, clk' k ≤ env.bound) (hm : env.bound ≤ m)
     (hpos : ∀ r ∈ σ.rows, 0 < r.units)
     (hfix : ∀ s, (σ.f t).start = some s → (σ.f t).end_ = none → (env.info t).children.isEmpty = true →
-      (∀ k, clk k ≤ s) ∧ (∀ k, clk' k ≤ s)) :
+      (∀ k, clk k ≤ s) ∧ (∀ k, clk' k ≤ s))
+    (hzero : (σ.f t).start = none → (σ.f t).end_ = none → (env.info t).children.isEmpty = true →
+      (env.info t).milestone = false → remaining env σ.f t = 0 →
+      (∀ k, clk k ≤ ((dayOf env.bound : Int) : Rat)) ∧ (∀ k, clk' k ≤ ((dayOf env.bound : Int) : Rat))) :
     fwdPlace (env.setClock clk) σ t m = fwdPlace (env.setClock clk') σ t m := by
   unfold fwdPlace
   simp only [Env.setClock_info, usedBy_setClock, fillEst_setClock]
@@ -478,8 +528,7 @@ theorem fwdPlace_clock (env : Env) (clk clk' : Nat → Time) (σ : SS) (t : Uid)
   · simp only [hms, if_true]
   · simp only [hms]
     have hu : ∀ d, 0 ≤ usedBy env σ.rows (env.info t).resource t d := fun d => reserved_nonneg _ hpos _ _ _
-    rw [fwdStart_clock env clk clk' cal _ t m _ (fun k => Rat.le_of_lt (lt_of_dayOf_lt (hlow1 k)))
-      (fun k => Rat.le_of_lt (lt_of_dayOf_lt (hlow2 k)))]
+    rw [fwdStart_clock env clk clk' cal _ t m _ (fun k => Rat.le_trans (hb1 k) hm) (fun k => Rat.le_trans (hb2 k) hm)]
     cases h1 : fwdStart (env.setClock clk') cal (usedBy env σ.rows (env.info t).resource t) t m
         { σ with res := res' } with
     | error e => rfl
@@ -489,7 +538,7 @@ theorem fwdPlace_clock (env : Env) (clk clk' : Nat → Time) (σ : SS) (t : Uid)
       | error e => rfl
       | ok σ2 =>
         simp only
-        rw [fwdEnd_clock env clk clk' cal _ t σ2 ?_]
+        rw [fwdEnd_clock env clk clk' cal _ t σ2 hb1 hb2 ?_]
         intro he hl
         have a := fwdStart_res _ _ _ _ _ _ _ h1
         have b := fillEst_dates _ _ _ _ h2
@@ -498,12 +547,22 @@ theorem fwdPlace_clock (env : Env) (clk clk' : Nat → Time) (σ : SS) (t : Uid)
           have : σ1 = { σ with res := res' } := a.2.2 s hs
           subst this
           have he' : (σ.f t).end_ = none := by rw [← he, b.2]
-          exact ⟨s, by rw [b.1]; exact hs, hfix s hs he' hl⟩
+          have hx := hfix s hs he' hl
+          exact ⟨s, by rw [b.1]; exact hs, fun k => dayOf_mono (hx.1 k), fun k => dayOf_mono (hx.2 k), fun _ => hx⟩
         | none =>
           obtain ⟨s, hs1, hd⟩ := fwdStart_leaf_day (env.setClock clk') _ _ _ _ { σ with res := res' } _ hu hs hl h1
-          refine ⟨s, by rw [b.1]; exact hs1, fun k => ?_, fun k => ?_⟩
-          · exact Rat.le_of_lt (lt_of_dayOf_lt (Int.lt_of_lt_of_le (hlow1 k) hd))
-          · exact Rat.le_of_lt (lt_of_dayOf_lt (Int.lt_of_lt_of_le (hlow2 k) hd))
+          have hbm : dayOf env.bound ≤ dayOf s := Int.le_trans (dayOf_mono hm) hd
+          refine ⟨s, by rw [b.1]; exact hs1, fun k => Int.le_trans (dayOf_mono (hb1 k)) hbm,
+            fun k => Int.le_trans (dayOf_mono (hb2 k)) hbm, fun hz => ?_⟩
+          have he' : (σ.f t).end_ = none := by rw [← he, b.2, a.1]
+          obtain ⟨_, f1est, f1sp, _, _⟩ := C04.fwdStart_leaf_fields (env.setClock clk') cal _ t m { σ with res := res' } σ1 hl h1
+          obtain ⟨e2, _⟩ := C04.fillEst_leaf env t σ1 σ2 hl h2
+          have hrem : leftOf σ2 t = remaining env σ.f t :=
+            C04.leftOf_eq_remaining env σ.f σ2 t (by rw [e2, f1est]) (by rw [e2, f1sp])
+          have hz' := hzero hs he' hl (by simpa using hms) (hrem ▸ hz)
+          have hsge : ((dayOf env.bound : Int) : Rat) ≤ s :=
+            Rat.le_trans (C04.cast_le_cast hbm) (C04.dayOf_le_self s)
+          exact ⟨fun k => Rat.le_trans (hz'.1 k) hsge, fun k => Rat.le_trans (hz'.2 k) hsge⟩
 
 
 theorem members_setClock (env : Env) (clk : Nat → Time) : members (env.setClock clk) = members env := rfl
@@ -538,9 +597,11 @@ theorem prepare_setClock (env : Env) (clk : Nat → Time) (f : Uid → Fields) (
 
 /-- the hypotheses of clock independence for one clock (the same as `ClockHyp` of Props/C06.lean) -/
 def ClockBefore (env : Env) (f0 : Uid → Fields) (clk : Nat → Time) : Prop :=
-  (∀ k, dayOf (clk k) < dayOf env.bound) ∧
+  (∀ k, clk k ≤ env.bound) ∧
   (∀ t ∈ memberList env, ∀ s, (f0 t).start = some s → (f0 t).end_ = none → ∀ k, dayOf (clk k) < dayOf s) ∧
-  (∀ t ∈ memberList env, ∀ e, (f0 t).end_ = some e → e ≤ clk 0)
+  (∀ t ∈ memberList env, ∀ e, (f0 t).end_ = some e → e ≤ clk 0) ∧
+  (∀ t ∈ memberList env, works env f0 t = true → (f0 t).start = none → remaining env f0 t = 0 →
+    ∀ k, clk k ≤ ((dayOf env.bound : Int) : Rat))
 
 /-- without user-fixed ends after the first clock reading the forward pre-check is the clock-free backward one -/
 theorem fwdPrecheck_eq_bwd (env : Env) (f0 : Uid → Fields)
@@ -618,13 +679,18 @@ theorem fwdPass_clock (env : Env) (f0 : Uid → Fields) (clk clk' : Nat → Time
   · intro a l v hv
     exact Rat.le_trans hv (maxEnds_ge a l v)
   · intro a x _ v hx ha _ hv hxd
-    refine fwdPlace_clock env clk clk' a x v ?_ ?_ ha.1.pos ?_
-    · exact fun k => Int.lt_of_lt_of_le (h1.1 k) (dayOf_mono hv)
-    · exact fun k => Int.lt_of_lt_of_le (h2.1 k) (dayOf_mono hv)
+    refine fwdPlace_clock env clk clk' a x v h1.1 h2.1 hv ha.1.pos ?_ ?_
     · intro s hs he hl
       rw [ha.2 x hxd, prepare_leaf env f0 mem x hl] at hs he
       exact ⟨fun k => Rat.le_of_lt (lt_of_dayOf_lt (h1.2.1 x (hml ▸ hx) s hs he k)),
         fun k => Rat.le_of_lt (lt_of_dayOf_lt (h2.2.1 x (hml ▸ hx) s hs he k))⟩
+    · intro hs he hl hms hrem
+      have hfx : a.f x = f0 x := by rw [ha.2 x hxd, prepare_leaf env f0 mem x hl]
+      have hr : remaining env a.f x = remaining env f0 x := by unfold remaining; rw [hfx]
+      rw [hfx] at hs he
+      rw [hr] at hrem
+      have hw : works env f0 x = true := by simp [works, isLeaf, hl, hms, he]
+      exact ⟨h1.2.2.2 x (hml ▸ hx) hw hs hrem, h2.2.2.2 x (hml ▸ hx) hw hs hrem⟩
 
 theorem fwdRun_clock (env : Env) (f0 : Uid → Fields) (res0 : List (Option Nat × Cal)) (clk clk' : Nat → Time)
     (hf : env.flagsOK) (h1 : ClockBefore env f0 clk) (h2 : ClockBefore env f0 clk') :
@@ -656,7 +722,7 @@ theorem forwardCalc_clock (env : Env) (f0 : Uid → Fields) (res0 : List (Option
     forwardCalc (env.setClock clk) f0 res0 = forwardCalc (env.setClock clk') f0 res0 := by
   unfold forwardCalc
   rw [fwdRun_clock env f0 res0 clk clk' hf h1 h2,
-    fwdPrecheck_eq_bwd (env.setClock clk) f0 h1.2.2, fwdPrecheck_eq_bwd (env.setClock clk') f0 h2.2.2,
+    fwdPrecheck_eq_bwd (env.setClock clk) f0 h1.2.2.1, fwdPrecheck_eq_bwd (env.setClock clk') f0 h2.2.2.1,
     bwdPrecheck_setClock, bwdPrecheck_setClock]
 
 end Pj
